@@ -20,6 +20,7 @@ HERE = os.path.dirname(os.path.abspath(__file__))
 VERIF = os.path.dirname(HERE)
 REPO = '/repo'
 PY = sys.executable
+SCALE = 1.0
 
 LP = 'matchingproblems/solver/lp_solver.py'
 MODEL = 'matchingproblems/solver/model.py'
@@ -240,6 +241,8 @@ def run_check(d, prop, runs, out):
     env['VERIF_REPO'] = d
     env['VERIF_OUT'] = out
     env['PYTHONDONTWRITEBYTECODE'] = '1'
+    if SCALE != 1.0:
+        env['VERIF_SCALE'] = str(SCALE)
     t0 = time.time()
     cmd = [PY, os.path.join(HERE, 'check.py'), prop, '--tier', 'quick']
     if runs:
@@ -265,6 +268,8 @@ def main():
     ap = argparse.ArgumentParser()
     ap.add_argument('--only', default='')
     ap.add_argument('--runs', type=int, default=0)
+    ap.add_argument('--scale', type=float, default=1.0,
+                    help='fraction of each quick budget (matrix runs)')
     ap.add_argument('--seeded', action='store_true',
                     help='run against /verif/seeded/*/patch.diff instead')
     ap.add_argument('--harmless', action='store_true',
@@ -272,6 +277,8 @@ def main():
     ap.add_argument('--all-props', action='store_true',
                     help='run every check against each mutant')
     a = ap.parse_args()
+    global SCALE
+    SCALE = a.scale
     import props
     results = []
     items = []
@@ -330,6 +337,11 @@ def main():
         finally:
             shutil.rmtree(d, ignore_errors=True)
             shutil.rmtree(out, ignore_errors=True)
+    if a.seeded and a.all_props:
+        name = 'sensitivity_seeded_matrix.json'
+        with open(os.path.join(VERIF, name), 'w') as f:
+            json.dump({'scale': SCALE, 'results': results}, f, indent=1)
+        return 0
     name = 'sensitivity_seeded.json' if a.seeded else (
         'harmless_refactors.json' if a.harmless else 'sensitivity.json')
     if a.harmless:
